@@ -7,7 +7,7 @@ use copia::{BlockSignature, Codec, Delta, DeltaOp, FrameHeader, Message, Signatu
 use serde_json::json;
 use std::io::Cursor;
 use std::path::Path;
-use std::time::{Duration, Instant};
+use std::time::Instant;
 
 pub const BOUND: usize = 16 * 1024 * 1024 + 4096;
 
@@ -546,6 +546,7 @@ pub struct LimRun {
     pub signal: Option<i32>,
     pub stderr: String,
     pub timed_out: bool,
+    pub spinning: bool,
     pub wall: f64,
 }
 pub fn run_limited(args: &[&str], cwd: &Path, as_kib: u64, timeout_s: u64) -> LimRun {
@@ -565,21 +566,11 @@ pub fn run_limited(args: &[&str], cwd: &Path, as_kib: u64, timeout_s: u64) -> Li
     // (one 64 MiB malloc arena per thread would eat the address-space limit under test by itself)
     cmd.current_dir(cwd).env("RUST_LOG", "off").env("MALLOC_ARENA_MAX", "2").stdin(Stdio::null()).stdout(Stdio::null()).stderr(Stdio::piped());
     let mut child = cmd.spawn().expect("spawn");
-    let mut timed_out = false;
-    let status = loop {
-        match child.try_wait() {
-            Ok(Some(s)) => break Some(s),
-            Ok(None) => {
-                if t0.elapsed() > Duration::from_secs(timeout_s) {
-                    let _ = child.kill();
-                    timed_out = true;
-                    break child.wait().ok();
-                }
-                std::thread::sleep(Duration::from_millis(3));
-            }
-            Err(_) => break None,
-        }
-    };
+    // (stderr is a pipe: these commands print a line or two, far below a pipe buffer)
+    let (status, timed_out, spinning) = crate::util::wait_watchdog(&mut child, crate::util::watchdog_secs(timeout_s));
+    if spinning {
+        crate::util::HANG_SEEN.store(true, std::sync::atomic::Ordering::Relaxed);
+    }
     let mut stderr = String::new();
     if let Some(mut e) = child.stderr.take() {
         use std::io::Read;
@@ -587,7 +578,7 @@ pub fn run_limited(args: &[&str], cwd: &Path, as_kib: u64, timeout_s: u64) -> Li
         let _ = e.read_to_end(&mut b);
         stderr = String::from_utf8_lossy(&b).into();
     }
-    LimRun { code: status.and_then(|s| s.code()), signal: status.and_then(|s| s.signal()), stderr, timed_out, wall: t0.elapsed().as_secs_f64() }
+    LimRun { code: status.and_then(|s| s.code()), signal: status.and_then(|s| s.signal()), stderr, timed_out, spinning, wall: t0.elapsed().as_secs_f64() }
 }
 
 fn put_u64(v: &mut [u8], at: usize, x: u64) {
@@ -742,6 +733,9 @@ fn hostile_files(seed: u64, idx: u64, work: &Path, rep: &mut Report) {
         let outcome = if r.code == Some(97) && crate::c01::valgrind() {
             rep.violation(&format!("C20|cli|valgrind-memcheck-error|{kindf}:{fclass}"), json!({"ctx": ctx, "stderr": r.stderr.chars().take(600).collect::<String>()}));
             "valgrind-error"
+        } else if r.spinning {
+            rep.violation(&format!("C20|cli|copia-{}|hang-spinning-without-progress|{kindf}:{fclass}", if kindf == "sig" { "delta" } else { "patch" }), json!({"ctx": ctx}));
+            "hang"
         } else if r.timed_out {
             rep.inconclusive += 1;
             rep.count("cli_timeouts", 1);
